@@ -15,6 +15,7 @@ import (
 	"com.tuntun.rangers/node/src/zzverif/simmap"
 	"com.tuntun.rangers/node/src/zzverif/simdisk"
 	"com.tuntun.rangers/node/src/zzverif/simrt"
+	"com.tuntun.rangers/node/src/zzverif/simsched"
 )
 
 // C19 — the group chain is a gap-free linked list whose height index matches it.
@@ -29,6 +30,8 @@ type c19Op struct {
 	K   string `json:"k"` // add addbad remove restart
 	G   int    `json:"g,omitempty"`   // group number (id = H("g"+G))
 	Bad string `json:"bad,omitempty"` // pre | parent | dup
+	G2  int    `json:"g2,omitempty"`  // addpair: second group
+	S   uint64 `json:"s,omitempty"`   // addpair: scheduler seed
 }
 
 type c19Plan struct {
@@ -52,11 +55,11 @@ func (c19) Budget(tier string) runner.Budget {
 
 func (c19) Describe() runner.Description {
 	return runner.Description{
-		Rule: "each history is 3..40 seeded group-chain operations on a booted node: AddGroup(valid successor), AddGroup(wrong predecessor / unknown parent / duplicate), remove-last-group (the operation a group-fork switch performs), restart. After every operation the invariant is checked on the live node AND (fault enumeration, exhaustive per history) on a fresh incarnation booted from the disk image taken right after that operation: LastGroup reachable from genesis by predecessor links, Count = list length, GetGroupByHeight(i) = i-th element for i<count and nil for i in [count,count+3], every listed group retrievable by id, removed ones not, GetSyncGroupsById = next <=5 successors; compared with a slice reference model. evaluations = invariant evaluations (live + restarted). distinct_nontrivial = distinct op-kind sequences containing a remove. Crash points INSIDE save/remove (between their individual store writes) are also booted; the property's quantifier only covers restarts after operations, so those images are only required to boot, and their self-consistency is reported as probes (midop_*), not as violations.",
+		Rule: "each history is 3..40 seeded group-chain operations on a booted node: AddGroup(valid successor), AddGroup(wrong predecessor / unknown parent / duplicate), two different valid successors submitted concurrently under the seeded scheduler (exactly one may be accepted), remove-last-group (the operation a group-fork switch performs), restart. After every operation the invariant is checked on the live node AND (fault enumeration, exhaustive per history) on a fresh incarnation booted from the disk image taken right after that operation: LastGroup reachable from genesis by predecessor links, Count = list length, GetGroupByHeight(i) = i-th element for i<count and nil for i in [count,count+3], every listed group retrievable by id, removed ones not, GetSyncGroupsById = next <=5 successors; compared with a slice reference model. evaluations = invariant evaluations (live + restarted). distinct_nontrivial = distinct op-kind sequences containing a remove. Crash points INSIDE save/remove (between their individual store writes) are also booted; the property's quantifier only covers restarts after operations, so those images are only required to boot, and their self-consistency is reported as probes (midop_*), not as violations.",
 		Assumptions: []string{"stub ConsensusHelper.CheckGroup accepts every group; group signatures are not what C19 is about", "the sqlite group index (second store) is not read by the oracle and starts empty in every incarnation"},
 		Real:        []string{"core/groupchain.go (AddGroup, save, remove, lookups, iterator, sync lookups)", "middleware/db + goleveldb on simulated storage", "middleware/mysql (sqlite group index)", "node boot: middleware, service, core init"},
 		Stub:        []string{"ConsensusHelper", "network (not started)", "NTP clock"},
-		FaultKinds:  []string{"restart_after_op", "crash_inside_op"},
+		FaultKinds:  []string{"restart_after_op", "crash_inside_op", "concurrent_add"},
 		Exhaustive:  true,
 	}
 }
@@ -85,6 +88,10 @@ func (c19) Gen(seed uint64, tier string) json.RawMessage {
 		case x < pRemove+0.2:
 			p.Ops = append(p.Ops, c19Op{K: "addbad", G: next, Bad: []string{"pre", "parent", "dup"}[r.Intn(3)]})
 			next++
+		case x < pRemove+0.3:
+			// two different valid successors of the current last group submitted concurrently
+			p.Ops = append(p.Ops, c19Op{K: "addpair", G: next, G2: next + 1, S: r.U64()})
+			next += 2
 		default:
 			p.Ops = append(p.Ops, c19Op{K: "add", G: next})
 			next++
@@ -250,6 +257,31 @@ func (c19) Exec(raw json.RawMessage, st *simrt.Stats, log *simrt.Log) *simrt.Vio
 				return simrt.Violationf("C19", "invalid-group-accepted", op.Bad, i, "AddGroup accepted a group with bad %s", op.Bad)
 			}
 			kinds += "a"
+		case "addpair":
+			mk := func(gn int) *types.Group {
+				g := &types.Group{Id: c19ID(gn), PubKey: []byte{1, 2, 3}, Signature: []byte{4}, Members: genesisMembers,
+					Header: &types.GroupHeader{Parent: m.list[0], PreGroup: m.list[len(m.list)-1], CreateHeight: uint64(10 * gn), Extends: "sim", BeginTime: time.Unix(1700000000, 0).UTC()}}
+				g.Header.Hash = g.Header.GenHash()
+				return g
+			}
+			g1, g2 := mk(op.G), mk(op.G2)
+			var e1, e2 error
+			res := simsched.Run(simsched.Options{Seed: op.S, Policy: "random", MaxPreempt: -1, MaxSteps: 200000}, []string{"adder1", "adder2"},
+				[]func(){func() { e1 = n.Groups.AddGroup(g1) }, func() { e2 = n.Groups.AddGroup(g2) }})
+			if res.Panic != nil {
+				return simrt.Violationf("C19", "host-panic", "concurrent-add", i, "%v", res.Panic)
+			}
+			st.Fault("concurrent_add")
+			log.Add("%d addpair g=%d,%d ok=%v,%v", i, op.G, op.G2, e1 == nil, e2 == nil)
+			switch {
+			case e1 == nil && e2 == nil:
+				return simrt.Violationf("C19", "two-successors-of-one-group-accepted", "concurrent-add", i, "two different groups with the same predecessor were both accepted when submitted concurrently")
+			case e1 == nil:
+				m.list = append(m.list, g1.Id)
+			case e2 == nil:
+				m.list = append(m.list, g2.Id)
+			}
+			kinds += "p"
 		case "remove":
 			if len(m.list) <= 1 {
 				node.OnWrite = nil
